@@ -116,6 +116,26 @@ M = [
     ('C08', 'ECPoint', 'pgpy.packet.fields', '        ct.bytelen = (bitlen + 7) // 8', '        ct.bytelen = bitlen // 8'),
     ('C12', 'second call', 'pgpy.packet.fields', '        if self.specifier >= String2KeyType.Salted:\n            hsalt = bytes(self.salt)', "        if self.specifier >= String2KeyType.Salted:\n            hsalt = bytes(getattr(self, '_salt0', self.salt))\n            self._salt0 = self.salt"),
     ('C04', 'ECDHCipherText.decrypt', 'pgpy.packet.fields', '        padder = PKCS7(64).unpadder()', '        padder = PKCS7(128).unpadder()'),
+    ('C08', 'MetaDispatchable', 'pgpy.types', '            try:\n                obj.parse(packet)\n\n            except Exception as ex:\n                raise PGPError(str(ex)) from ex', '            obj.parse(packet)'),
+    ('C08', 'MetaDispatchable', 'pgpy.types', '                    if (rcls, header.typeid, header.version) in MetaDispatchable._registry:\n                        ncls = MetaDispatchable._registry[(rcls, header.typeid, header.version)]\n\n                    else:  # pragma: no cover\n                        ncls = None', '                    if (rcls, header.typeid, header.version) in MetaDispatchable._registry:\n                        ncls = MetaDispatchable._registry[(rcls, header.typeid, header.version)]'),
+    ('C06', 'PrivKeyV4.protect', 'pgpy.packet.packets', '        self.keymaterial.encrypt_keyblob(passphrase, enc_alg, hash_alg)\n        del passphrase\n        self.update_hlen()', '        self.keymaterial.encrypt_keyblob(passphrase, enc_alg, hash_alg)\n        del passphrase'),
+    ('C06', 'PGPKey.protect', 'pgpy.pgp', '        for sk in itertools.chain([self], self.subkeys.values()):\n            sk._key.protect(passphrase, enc_alg, hash_alg)', '        for sk in [self]:\n            sk._key.protect(passphrase, enc_alg, hash_alg)'),
+    ('C15', 'PGPKey.add_subkey', 'pgpy.pgp', '            del self._children[key.fingerprint.keyid]\n            key._parent = None\n            raise', '            raise'),
+    ('C15', 'revocation_signatures[sub', 'pgpy.pgp', '            else (self.parent.fingerprint.keyid, SignatureType.SubkeyRevocation)', '            else (self.fingerprint.keyid, SignatureType.SubkeyRevocation)'),
+    ('C02', 'EdDSASignature', 'pgpy.packet.fields', '        return self.int_to_bytes(self.r, siglen) + self.int_to_bytes(self.s, siglen)', '        return self.int_to_bytes(self.r) + self.int_to_bytes(self.s, siglen)'),
+    ('C02', 'ECDSAPriv.sign', 'pgpy.packet.fields', '        return self.__privkey__().sign(sigdata, ec.ECDSA(hash_alg))', '        return self.__privkey__().sign(sigdata[:-1], ec.ECDSA(hash_alg))'),
+    ('C02', 'PGPSignature.new', 'pgpy.pgp', "        sigpkt.subpackets.addnew('CreationTime', hashed=True, created=created)", "        sigpkt.subpackets.addnew('CreationTime', hashed=False, created=created)"),
+    ('C03', 'PGPMessage.encrypt', 'pgpy.pgp', '            skedata.encrypt(sessionkey, cipher_algo, self.__bytes__())\n            msg |= skedata', '            skedata.encrypt(sessionkey, SymmetricKeyAlgorithm.AES128, self.__bytes__())\n            msg |= skedata'),
+    ('C04', 'IntegrityProtectedSKEDataV1.decrypt[AES256', 'pgpy.packet.packets', '        pt = _decrypt(bytes(self.ct), bytes(key), alg)\n', "        if getattr(self, '_seen', None) is not None:\n            return bytearray(self._seen)\n        pt = _decrypt(bytes(self.ct), bytes(key), alg)\n        self._seen = pt[alg.block_size // 8 + 2:-22]\n"),
+    ('C10', 'PGPSignature.parse', 'pgpy.pgp', "        if unarmored['magic'] is not None and unarmored['magic'] != 'SIGNATURE':\n            raise ValueError('Expected: SIGNATURE. Got: {}'.format(str(unarmored['magic'])))", "        if unarmored['magic'] is not None and 'SIGNATURE' not in unarmored['magic']:\n            raise ValueError('Expected: SIGNATURE. Got: {}'.format(str(unarmored['magic'])))"),
+    ('C11', '__str__', 'pgpy.pgp', '                               cleartext=self.dash_escape(self.bytes_to_text(self._message)),', '                               cleartext=self.bytes_to_text(self._message),'),
+    ('C14', 'PGPKey.__or__[subkey', 'pgpy.pgp', '        elif isinstance(other, PGPKey) and not other.is_primary and other.is_public == self.is_public:', '        elif isinstance(other, PGPKey) and not other.is_primary:'),
+    ('C14', 'PGPKey.__copy__', 'pgpy.pgp', '        for uid in self._uids:\n            key |= copy.copy(uid)\n\n        for id, subkey', '        for uid in self.userids:\n            key |= copy.copy(uid)\n\n        for id, subkey'),
+    ('C17', '__and__', 'pgpy.types', '        self._subjects += other._subjects\n        return self', '        self._subjects = other._subjects\n        return self'),
+    ('C18', 'Fingerprint.__eq__', 'pgpy.types', "            other = other.replace(' ', '')\n            return any([str(self) == other,", "            return any([str(self) == other,"),
+    ('C20', 'PGPMessage.new[sens', 'pgpy.pgp', "            lit.filename = '_CONSOLE' if sensitive else os.path.basename(filename)", '            lit.filename = os.path.basename(filename)'),
+    ('C20', 'PGPMessage.parse[cleartext', 'pgpy.pgp', '                self |= PGPSignature() | pkt\n\n        else:', '                self |= PGPSignature()\n\n        else:'),
+    ('C20', 'PGPMessage.__or__', 'pgpy.pgp', '        if isinstance(other, (PKESessionKey, SKESessionKey)):\n            self._sessionkeys.append(other)\n            return self', '        if isinstance(other, (PKESessionKey, SKESessionKey)):\n            return self'),
 ]
 
 
